@@ -107,7 +107,19 @@ func c14Faulty(r *rt.Rand, t gen.T) (*gen.Node, string) {
 			n = gen.Bin("+", gen.Int(1), V())
 		}
 	default:
-		switch r.Intn(6) {
+		switch r.Intn(10) {
+		case 6: // the keywords and / or take Boolean operands like & and | do
+			if r.Bool() {
+				n = gen.And(gen.Int(1), gen.Int(2))
+			} else {
+				n = gen.Or(K(), V())
+			}
+		case 7: // a Boolean on the left of IN
+			n = gen.In(gen.Bin("=", K(), gen.Str("a")), gen.Bool(true), gen.Bool(false))
+		case 8: // = between lists
+			n = gen.Bin("=", gen.Call("split", K(), gen.Str("a")), gen.Call("split", K(), gen.Str("b")))
+		case 9: // != between lists
+			n = gen.Bin("!=", gen.Call("list", gen.Int(1), gen.Int(2)), gen.Call("list", gen.Int(1), gen.Int(2)))
 		case 0:
 			n = gen.Bin("=", K(), gen.Int(1)) // text = number
 		case 1:
@@ -166,6 +178,20 @@ func (k c14) positive(c *rt.Ctx, st *gen.Store) {
 			"select key as a, upper(a) as u, u + a as w where w != 'x' & strlen(w) > 0",
 		}[r.Intn(5)]
 		rec.Inc("name_chain_in_where")
+	} else if r.Chance(1, 15) {
+		// grouping by a field that is not selected (as many select fields as grouping fields, or
+		// fewer): an aggregate statement like any other; Boolean operands of =, keyword and/or
+		q = []string{
+			"select count(1) where key != 'zz' group by value",
+			"select key, count(1) where key != 'zz' group by key, value",
+			"select count(1), max(key) where key != 'zz' group by value, key",
+			"select value, count(1) where key != 'zz' group by value, key",
+			"select sum(strlen(key)) where true group by value",
+			"select key, value where (key = 'a') = (value = 'b') | (key ^= 'k') != is_int(value)",
+			"select * where is_int(value) and (key ^= 'k' or !(value = 'x')) and true",
+			"select * where key in ('a', 'k1') = (value in ('1', '2'))",
+		}[r.Intn(8)]
+		rec.Inc("group_by_unselected_fields_and_boolean_operands")
 	}
 	rec.DistinctS(q)
 	for _, m := range []drive.Mode{{Batch: false, Size: pickBatch(c), Cache: true}, {Batch: true, Size: pickBatch(c), Cache: true}} {
@@ -213,7 +239,7 @@ func (k c14) negative(c *rt.Ctx, st *gen.Store) {
 	g.NoAlias = true
 	K, V := gen.Key, gen.Value
 	var q, fault, pos string
-	place := r.Intn(20)
+	place := r.Intn(22)
 	sel := func(field, where string) string { return "select " + field + " where " + where }
 	switch place {
 	case 0: // top: non-Boolean WHERE
@@ -441,6 +467,35 @@ func (k c14) negative(c *rt.Ctx, st *gen.Store) {
 			q, fault = "delete where json("+gen.Print(n)+")"+idx+" = 'x'", f
 		}
 		pos = "under-index"
+	case 19: // DELETE: a WHERE that is not Boolean
+		var n *gen.Node
+		if r.Bool() {
+			n = g.S(1, false)
+		} else {
+			n = g.N(1, false)
+		}
+		if n.K == gen.KRef {
+			n = K()
+		}
+		q, fault, pos = "delete where "+gen.Print(n), "non-boolean-where", "delete"
+		if r.Chance(1, 3) {
+			q += " limit 2"
+		}
+	case 20: // an aggregate function where only pair-wise functions can stand
+		ag := []string{"count(1) > 0", "sum(int(value)) > 1", "max(key) = 'k'", "strlen(group_concat(key, ',')) > 1", "avg(strlen(key)) >= 0"}[r.Intn(5)]
+		switch r.Intn(5) {
+		case 0:
+			q = sel("*", ag)
+		case 1:
+			q = sel("key, value", "key ^= 'k' & "+ag)
+		case 2:
+			q = "delete where " + ag
+		case 3:
+			q = "put ('k1', " + []string{"count(1)", "str(sum(1))", "max('a')"}[r.Intn(3)] + ")"
+		default:
+			q = "remove " + []string{"max('a')", "group_concat('a', 'b')", "str(count(1))"}[r.Intn(3)]
+		}
+		fault, pos = "aggregate-outside-select-fields", "filter-or-write"
 	default: // index base / index misuse
 		n, f := c14Faulty(r, gen.TS)
 		t := gen.Bin("=", gen.IndexI(gen.Call("split", n, gen.Str(",")), 0), gen.Str("a"))
